@@ -19,8 +19,9 @@ if os.path.realpath(REPO) == '/repo':
 else:
     # runs against a scratch tree (mutants, the original snapshot) must not
     # overwrite the evidence of /repo itself
-    EVIDENCE_DIR = os.path.join('/dev/shm', 'verif-alt', 'evidence')
-    REPLAY_DIR = os.path.join('/dev/shm', 'verif-alt', 'replays')
+    _ALT = os.environ.get('VERIF_ALT', os.path.join('/dev/shm', 'verif-alt'))
+    EVIDENCE_DIR = os.path.join(_ALT, 'evidence')
+    REPLAY_DIR = os.path.join(_ALT, 'replays')
 FINDINGS = os.path.join(VERIF, 'known_findings.json')
 
 
